@@ -245,7 +245,11 @@ func propC04(o *out, r *rng, thorough bool) {
 		c04One(o, "SELECT "+strings.Repeat("(", d)+"x"+strings.Repeat(")", d)+" FROM m", nil, "deep-parens")
 		c04One(o, "SELECT "+strings.Repeat("(", d)+"x", nil, "deep-parens-open")
 		c04One(o, "SELECT "+strings.Repeat("f(", d)+"x"+strings.Repeat(")", d)+" FROM m", nil, "deep-calls")
-		c04One(o, "SELECT v FROM "+strings.Repeat("(SELECT v FROM ", d)+"m"+strings.Repeat(")", d), nil, "deep-subqueries")
+		ds := d
+		if ds > 2000 { // each subquery level costs the extracted model several stack frames and a pass over the rest of the text
+			ds = 2000
+		}
+		c04One(o, "SELECT v FROM "+strings.Repeat("(SELECT v FROM ", ds)+"m"+strings.Repeat(")", ds), nil, "deep-subqueries")
 		c04One(o, "SELECT "+strings.Repeat("-", d)+"x FROM m", nil, "sign-chain")
 		c04One(o, "SELECT x"+strings.Repeat(" + x", d)+" FROM m", nil, "long-chain")
 		c04One(o, "SELECT x"+strings.Repeat(" OR x AND x = x + x * x", d/5+1)+" FROM m", nil, "long-mixed-chain")
